@@ -352,7 +352,7 @@ func K9() *Entry {
 	// a path-specific exclusion below a nested occurrence of an exported type
 	c.ExcludeFields = []string{"Pref.Meta.Labels", "User.Spec.Meta.Owner.Email", "User.History.Owner.Login", "User.History.Owner.Email"}
 	// an explicit empty list under a full path switches off what the Message.Field key configures
-	c.Validators = map[string][]string{"Meta.Revision": {V("rev")}, "User.Meta.Revision": {}, "Owner.Login": {V("login1"), V("login2")}, "User.Backup.Owner.Login": {}}
+	c.Validators = map[string][]string{"Meta.Revision": {V("rev")}, "User.Meta.Revision": {}, "Owner.Login": {V("teleport.dev/login"), V("login.v2")}, "User.Backup.Owner.Login": {}}
 	// (on a field that is not computed: whether an explicit empty list also switches the UseStateForUnknown default off is not documented)
 	c.PlanModifiers["Owner.Login"] = []string{PM("login-pm")}
 	c.PlanModifiers["User.Backup.Owner.Login"] = []string{}
